@@ -211,7 +211,8 @@ class ScriptedPeer(object):
                 if self.context is not None and not self.tls:
                     exts.append('STARTTLS')
                 if self.auth:
-                    exts.append('AUTH PLAIN LOGIN')
+                    # auth=True: the usual line; a string: that line (mechanisms the client may not know, or none at all)
+                    exts.append('AUTH PLAIN LOGIN' if self.auth is True else self.auth)
                 exts.append('ENHANCEDSTATUSCODES')
                 exts.extend(getattr(self, 'extra_exts', []))
                 self._reply('ehlo', 'ehlo', None, multi=exts)
